@@ -14,7 +14,7 @@ returns), ['spawn', which] (fresh tasks are attached), ['setfile'].
 from __future__ import annotations
 
 import asyncio
-import itertools
+import logging
 import os
 import random
 import shutil
@@ -36,6 +36,7 @@ STATE_CLASS = {'VIRGIN': 'VirginState', 'QUEUED': 'QueuedState', 'INITIALIZING':
 REASONS = {0: 'Blocked', 1: 'Requested', 2: 'Cancelled', 3: 'File not shared.', 4: 'File read error.', 5: 'Queued'}
 REASON_NO = {v: k for k, v in REASONS.items()}
 T0 = 1000.0
+logging.getLogger('aioslsk').setLevel(logging.CRITICAL + 1)      # refusals log a warning each
 
 # ---- the documented graph, as the monitor reads it (the frozen Lean spec is cross-checked against this
 # ---- on every run through the driver's `spec` op)
@@ -73,8 +74,11 @@ class _Gate:
     def __init__(self, loop):
         self.loop = loop
         self.waiting = []
+        self.closing = False      # end of the case: nothing waits any more
 
     async def wait(self):
+        if self.closing:
+            return
         fut = self.loop.create_future()
         self.waiting.append(fut)
         await fut
@@ -193,15 +197,19 @@ async def _scenario(loop, case, path):
         with open(path, 'wb') as fh:
             fh.write(b'x' * 10)
 
+    dummies = []
+
     def spawn(which):
         # while a cancellation is still in flight the slots are not re-filled (the model has one `tasksLive` flag)
         if any(not x.done() and x.cancelling() for x in t.get_tasks()):
             return
         if which in ('transfer', 'both') and (t._transfer_task is None or t._transfer_task.done()):
             t._transfer_task = loop.create_task(dummy())
+            dummies.append(t._transfer_task)
             t._transfer_task.add_done_callback(t._transfer_task_complete)
         if which in ('queue', 'both') and (t._remotely_queue_task is None or t._remotely_queue_task.done()):
             t._remotely_queue_task = loop.create_task(dummy())
+            dummies.append(t._remotely_queue_task)
             t._remotely_queue_task.add_done_callback(t._remotely_queue_task_complete)
 
     spawn(ini.get('tasks', 'none'))
@@ -306,6 +314,7 @@ async def _scenario(loop, case, path):
                     rec['on'] = True
                     with open(path, 'wb') as fh:
                         fh.write(b'y' * 10)
+                    add('env', who=None)        # the environment changed the file: later entries compare to this one
                     lines.append('ok')
                 else:
                     lines.append('err bad-op')
@@ -331,7 +340,11 @@ async def _scenario(loop, case, path):
         st_mod.asyncos = saved_asyncos
         for c in created.values():
             c.close()
+        gate.closing = True
         gate.open()
+        for x in runners + dummies:
+            x.cancel()
+        await asyncio.gather(*runners, *dummies, return_exceptions=True)
     return {'lines': lines, 'log': log}
 
 
@@ -522,8 +535,11 @@ def _random_case(rng: random.Random, size: int) -> dict:
                 step.append(['spawn', rng.choice(['transfer', 'queue', 'both'])])
             else:
                 step.append(['setfile'])
-        # `resume` acts on what is blocked at the START of the step: keep it first
-        step.sort(key=lambda a: 0 if a[0] == 'resume' else 1)
+        # `resume` acts on what is blocked at the START of the step, and what the environment does (spawn, setfile)
+        # happens at once while calls only run when the loop turns: keep that order in the step
+        step.sort(key=lambda a: {'resume': 0, 'spawn': 1, 'setfile': 1}.get(a[0], 2))
+        if step and step[0][0] == 'resume':     # the resumed holder has not run yet when the next action is applied
+            step = [a for a in step if a[0] not in ('spawn', 'setfile')]
         case['steps'].append(step)
     for cid_ in pending_created:
         if rng.random() < 0.7:
